@@ -183,6 +183,23 @@ func numVal(prim string, x float64) *dg.Val {
 	}
 }
 
+var formatSubclasses = map[string][]string{
+	"ip":        {"192.168.0.1", "2001:db8::1", "::ffff:10.0.0.1", "1.2.3"},
+	"ipv4":      {"0.0.0.0", "255.255.255.255", "::1"},
+	"ipv6":      {"2001:db8::1", "::", "10.0.0.1"},
+	"uri":       {"https://example.com/a/b?c=d#e", "/relative/path", "mailto:a@b.co", "relative"},
+	"date-time": {"2020-02-29T10:11:12Z", "2020-02-29T10:11:12+01:00", "2020-02-29T10:11:12.123456Z", "2020-02-29t10:11:12z", "2020-02-29"},
+	"date":      {"2020-02-29", "2021-02-29", "20200229"},
+	"uuid":      {"6BA7B810-9DAD-11D1-80B4-00C04FD430C8", "6ba7b8109dad11d180b400c04fd430c8", "urn:uuid:6ba7b810-9dad-11d1-80b4-00c04fd430c8", "{6ba7b810-9dad-11d1-80b4-00c04fd430c8}"},
+	"email":     {"a@b.co", "Bob <a@b.co>", "a@b", "a.b.co"},
+	"hostname":  {"example.com", "a", "ex_ample.com", "xn--bcher-kva.example"},
+	"mac":       {"00:00:5e:00:53:01", "00-00-5e-00-53-01", "0000.5e00.5301", "00:00:5e:00:53:01:02:03"},
+	"cidr":      {"10.0.0.0/8", "2001:db8::/32", "10.0.0.1"},
+	"regexp":    {"^a+b*$", "(?i)x", "a(?=b)"},
+	"json":      {"{}", "[1,2]", "1", "{a:1}"},
+	"rfc1123":   {"Mon, 02 Jan 2006 15:04:05 MST", "Mon, 02 Jan 2006 15:04:05 GMT", "2006-01-02"},
+}
+
 func asciiN(n int) string { return strings.Repeat("q", n) }
 func multiN(n int) string { return strings.Repeat("é", n) }
 
@@ -223,8 +240,26 @@ func candidates(d *dg.Design, rng *vh.RNG, s site) (out []struct {
 				add(numVal(p, *b.p+delta), b.n+"+d")
 			}
 			if len(val.Enum) > 0 {
-				if f, ok := toF(val.Enum[len(val.Enum)-1]); ok {
-					add(numVal(p, f), "enum-member")
+				for i, e := range val.Enum {
+					if f, ok := toF(e); ok {
+						add(numVal(p, f), fmt.Sprintf("enum-member:%d", i))
+					}
+				}
+				_, avs := d.Base(&s.attr.T)
+				for _, av := range avs {
+					for i, e := range av.Enum {
+						if f, ok := toF(e); ok {
+							in := false
+							for _, o := range val.Enum {
+								if g, ok := toF(o); ok && g == f {
+									in = true
+								}
+							}
+							if !in {
+								add(numVal(p, f), fmt.Sprintf("enum-alias-only:%d", i))
+							}
+						}
+					}
 				}
 				add(numVal(p, 99), "enum-miss")
 			}
@@ -232,12 +267,35 @@ func candidates(d *dg.Design, rng *vh.RNG, s site) (out []struct {
 		case p == "String":
 			switch {
 			case len(val.Enum) > 0:
-				add(&dg.Val{K: "string", S: fmt.Sprint(val.Enum[len(val.Enum)-1])}, "enum-member")
+				for i, e := range val.Enum {
+					add(&dg.Val{K: "string", S: fmt.Sprint(e)}, fmt.Sprintf("enum-member:%d", i))
+				}
+				// members of an alias type's Enum that the attribute's own Enum leaves out
+				_, avs := d.Base(&s.attr.T)
+				for _, av := range avs {
+					for i, e := range av.Enum {
+						in := false
+						for _, o := range val.Enum {
+							if fmt.Sprint(o) == fmt.Sprint(e) {
+								in = true
+							}
+						}
+						if !in {
+							add(&dg.Val{K: "string", S: fmt.Sprint(e)}, fmt.Sprintf("enum-alias-only:%d", i))
+						}
+					}
+				}
 				add(&dg.Val{K: "string", S: "zz"}, "enum-miss")
 				add(&dg.Val{K: "string", S: strings.ToUpper(fmt.Sprint(val.Enum[0]))}, "enum-case")
 			case val.Format != "":
-				if ss := dg.FormatSamples(val.Format); len(ss) > 0 {
-					add(&dg.Val{K: "string", S: ss[len(ss)-1]}, "format-ok")
+				for i, x := range dg.FormatSamples(val.Format) {
+					add(&dg.Val{K: "string", S: x}, fmt.Sprintf("format-ok:%d", i))
+				}
+				// instances of every sub-class of the format (what they are worth is decided by goa.ValidateFormat)
+				for i, x := range formatSubclasses[val.Format] {
+					if s.loc == "body" || s.loc == "query" || !strings.ContainsAny(x, " <>\"") {
+						add(&dg.Val{K: "string", S: x}, fmt.Sprintf("format-class:%d", i))
+					}
 				}
 				if b, ok := dg.FormatBad(val.Format); ok {
 					add(&dg.Val{K: "string", S: b}, "format-miss")
